@@ -445,8 +445,24 @@ func validate(c *proxyv1alpha1.UpstreamCluster) (errs []string, panicked interfa
 	} else if len(errs) > 0 {
 		panicked = fmt.Sprintf("harness: plugin accepted what ValidateUpstreamCluster rejects: %v", errs)
 	}
+	if len(errs) > 0 && panicked == nil {
+		// the same object submitted as an UPDATE of an object that differs only in metadata (annotations, labels): what
+		// is refused on create must be refused there too - the gateway reads the feature gates from an annotation
+		old := c.DeepCopy()
+		old.Annotations = nil
+		old.Labels = map[string]string{"previous": "version"}
+		old.ResourceVersion = "1"
+		upd := admission.NewAttributesRecord(c.DeepCopy(), old, gvk, "", c.Name, gvr, "", admission.Update, &metav1.UpdateOptions{}, false, nil)
+		if err := plugin.Validate(context.Background(), upd, objInterfaces); err == nil {
+			acceptedAsUpdate = true
+		}
+	}
 	return
 }
+
+// acceptedAsUpdate is set by validate when the create path refused the object but the update path (old object with the
+// same spec) accepted it.
+var acceptedAsUpdate bool
 
 type echoCS struct{ client gatewayclientset.Interface }
 
@@ -583,17 +599,21 @@ var probes = func() []gen.Request {
 }()
 
 func TestPropValidationTotalAndSound(t *testing.T) {
-	sub := stats.NewSub("near-valid-objects", "rapid: a valid UpstreamCluster (shared generator: servers, policies, schemas incl. global members, serving TLS material, annotations) with 0-4 random field edits (junk / unparseable / mixed-scheme endpoints, any combination of the five flow-control members with values from {0,1,-1,2,5,100,-100,MaxInt32,MinInt32}, unknown subset endpoints / schema names, empty rules, junk strategies and log modes, client config and serving TLS material with garbage / mismatched PEM and bundles mixing good, unparseable and truncated blocks, https switch, invalid names, junk feature-gate annotations, global strategy without global member, schema with only a global member); oracle: validation never panics; accepted => every apply stage succeeds; accepted => the must-reject predicate is empty; non-trivial = an edited object (accepted or rejected); distinct by FNV-64 of the object")
+	sub := stats.NewSub("near-valid-objects", "rapid: a valid UpstreamCluster (shared generator: servers, policies, schemas incl. global members, serving TLS material, annotations) with 0-4 random field edits (junk / unparseable / mixed-scheme endpoints, any combination of the five flow-control members with values from {0,1,-1,2,5,100,-100,MaxInt32,MinInt32}, unknown subset endpoints / schema names, empty rules, junk strategies and log modes, client config and serving TLS material with garbage / mismatched PEM and bundles mixing good, unparseable and truncated blocks, https switch, invalid names, junk feature-gate annotations, global strategy without global member, schema with only a global member); oracle: validation never panics; an object refused on create is also refused as an update of an object that differs only in metadata; accepted => every apply stage succeeds; accepted => the must-reject predicate is empty; non-trivial = an edited object (accepted or rejected); distinct by FNV-64 of the object")
 	remote.VerifSetWaitAcquireTimeout(1e6)
 	var prevAccepted *proxyv1alpha1.UpstreamCluster
 	stats.Check(t, stats.N(8000, 40000), func(t *rapid.T) {
 		c := gen.GenValidCluster(t, "base", "alpha", gen.ObjOpts{Endpoints: []string{"http://127.0.0.1:1", "http://127.0.0.1:2"}, ServerNames: []string{"a.example.com"}, PKI: mats, SchemaNames: []string{"s1", "s2"}})
 		edits := mutate(t, c)
+		acceptedAsUpdate = false
 		errs, p := validate(c)
 		sub.Eval()
 		desc := fmt.Sprintf("edits %q on %s", edits, gen.ClusterString(c))
 		if p != nil {
 			t.Fatalf("validation panicked: %v\n%s", p, desc)
+		}
+		if acceptedAsUpdate {
+			t.Fatalf("the object is refused on create (%q) but accepted as an update of an object with the same spec\n%s", errs, desc)
 		}
 		if len(edits) > 0 {
 			sub.NonTrivial(stats.HashString(desc))
